@@ -291,6 +291,8 @@ def run(ctx):
         nobs = mc.run_impl_cases(ncases, build=b)
         for i, ol in enumerate(nobs):
             pr = (ol[-1].get("pickle") or {}).get("problems")
+            if ol and ol[0].get("crash"):
+                pr = ["the library raised while being observed: " + ol[0]["crash"][-400:]]
             if pr:
                 nested_fail.append((i, b, pr))
         ctx.evaluations += sum(len(c["ops"]) for c in ncases)
